@@ -31,6 +31,9 @@ func (c Config) workerCmd(prop string) []string {
 	if prop == "C20" {
 		return []string{filepath.Join(c.BinDir, "worldk.test"), "-test.run=^TestWorker$", "-test.timeout=0"}
 	}
+	if prop == "C09" {
+		return []string{filepath.Join(c.BinDir, "verifsim-c09")}
+	}
 	return []string{filepath.Join(c.BinDir, "verifsim")}
 }
 
